@@ -157,7 +157,7 @@ func funcSubStrVec(chunk []KVPair, args []Expression, ctx *ExecuteCtx) ([]any, e
 		if start < 0 || start > vlen-1 {
 			values[i] = ""
 		} else {
-			length = min(length, vlen-start)
+			length = min(length, vlen)
 			if length < start {
 				values[i] = ""
 			} else {
